@@ -59,6 +59,12 @@ CHECKS.update({
  "C18": dict(engine="fxsym", category="translation_validation", design_ref="DESIGN.md §4 C18",
    text="Per program (C16 vocabulary + fan-out, bool/int intermediates, views, in-place adds, multiple outputs, conv): the graph TorchDynamo captured under the real track_scales() is interpreted twice on symbolic tensors - plainly, and by the library's real ScaleTrackingInterpreter / ScaleTrackingAutogradFunction - and unified: outputs and all gradients identical for all data; every recorded metric is the statistic term of the tensor (forward) and of the total accumulated gradient (backward) that flowed through that node; instrumented iff float; no backward metrics without gradient; a second forward-only call with other data reports that call's statistics. Plus the real track_scales run through Dynamo on real inputs (bit-identical outputs/gradients, recorded numbers = recomputed statistics) and analyse_module's tracer/interpreter symbolically.",
    note="Trusted: TorchDynamo capture; engine S (statistics are opaque terms over universally quantified data; gradient accumulation per torch.autograd's contract). Numeric evaluation of mean/std/max is torch's.", technique="translation validation: instrumented vs plain symbolic interpretation of real Dynamo-captured graphs, unification with z3; concrete bit-exact replay"),
+ "C17": dict(engine="fxsym", category="translation_validation", design_ref="DESIGN.md §4 C17",
+   text="Partial. (i) the real _order_backends on lists whose backend kinds are solver-selected symbols (path forking in the real code, lengths 1-4 quick / 1-5 thorough): unit scaling precedes quantisation, multiset and relative order of the others preserved; _compose_backends applies each backend once in list order. (ii) both orders of {unit_scale, simulate_format} on a family of modules through the REAL TorchDynamo path - also after calling the intermediate module - : each library backend applied exactly once, unit scaling first, and the two orders' final graphs unified symbolically on output and all gradients for all data/dims. (iii) concrete side conditions on real objects (labelled): original bit-identical, no shared storage, backends list untouched, repeated calls equal.",
+   note="Trusted: TorchDynamo capture; engine S. Outside: Dynamo's caching behaviour beyond 'two calls agree', and compile() (Inductor).", technique="symbolic path forking over backend kinds (z3) + translation validation of the two nesting orders on real Dynamo graphs; concrete side conditions"),
+ "C19": dict(engine="fxsym", category="translation_validation", design_ref="DESIGN.md §4 C19",
+   text="Tracked graphs from the real track_scales (views/negations, rotate-half and stack list arguments, keyword tensor arguments, integer/bool intermediates, two-float-input bool nodes, multi-output, residual, embedding+loss; forward-only and forward+backward). Same-scale pruning: every node's forward/backward mean-|x| and rtol are solver symbols; the real prune_same_scale_tensors runs with path forking over all comparison outcomes (math.isclose = its documented formula) and per path z3 checks path => (removed node same-scale as its resolved bypass target; kept eligible node not same-scale), plus structural checks: lint, original order, input graph unchanged, every removed producer bypassed at every occurrence (positional, keyword, nested). Selective pruning with a solver-selected target subset (removed iff selected, edges cut). Non-float pruning structurally per graph; the three given rtol values on the real recorded metrics.",
+   note="Trusted: real track_scales/Dynamo for the graph skeletons (enumerated family of 9 modules x 2 modes); z3 for path feasibility and rule obligations; expected consumer arguments recomputed independently.", technique="symbolic execution of the pruning passes with symbolic metrics and tolerance (z3 path forking); structural translation validation of the result graph"),
 })
 
 NA = {
